@@ -1676,6 +1676,7 @@ namespace bloch::runtime {
             std::cerr << "[ctor] " << cls->name << " done" << std::endl;
         }
 
+        m_returnValue = {};  // a constructor's 'return this' must not pin the object
         endScope();
         m_currentClassCtx = prevClass;
         m_inStaticContext = prevStatic;
@@ -1719,6 +1720,7 @@ namespace bloch::runtime {
             }
         }
         Value ret = m_returnValue;
+        m_returnValue = {};  // consumed: do not keep the returned object alive
         endScope();
         m_hasReturn = prevReturn;
         m_currentClassCtx = prevClass;
@@ -1745,6 +1747,7 @@ namespace bloch::runtime {
             }
         }
         Value ret = m_returnValue;
+        m_returnValue = {};  // consumed: do not keep the returned object alive
         endScope();
         m_hasReturn = prevReturn;
         return ret;
